@@ -20,7 +20,7 @@ class C07(Pipeline):
     driver_test = "TestDriveEvmAttest"
     trace_module = "EvmAttestTrace"
     quick_cap = 4500
-    thorough_cap = 40000
+    thorough_cap = 14000
     assumptions = [
         "messages are really enqueued through the evm keeper (AddSmartContractExecutionToConsensus, PublishSnapshotToAllChains, SetAsCompassContract, CreateUserSmartContractDeployment), signed through the consensus msg server, attested through AddEvidence and the consensus module's EndBlock (E1 keeper wiring plus the two wirings app.go adds: EvmKeeper.Skyway and the attested-message listeners)",
         "gas estimates are submitted by every validator and elected (first half of the end-blocker) right after a message appears: relayers never relay a message without an elected estimate / fees",
@@ -29,6 +29,25 @@ class C07(Pipeline):
         "four validators with shares 3:1:1:1 in the current snapshot ({1,2} holds exactly 2/3, {2,3,4} is one short); blocks are 60 s apart, which keeps the relayer pick stable",
         "one user-contract deployment per history (two deployments of one contract created in the same block are indistinguishable for finishUserSmartContractDeployment)",
     ]
+
+    def drive(self, histories):
+        # histories whose prepared world could not be built with the code under test are reported by the driver
+        # (Init event with a non-empty "prep"); they cannot be validated and make a passing run inconclusive
+        events = super().drive(histories)
+        skipped = {e["h"]: e["prep"] for e in events if e["act"] == "Init" and e.get("prep")}
+        if skipped:
+            self._skipped = skipped
+            vk.log("%d histories skipped: %s" % (len(skipped), sorted(set(skipped.values()))[:3]))
+        return [e for e in events if e["h"] not in skipped]
+
+    def run(self, tier):
+        self._skipped = {}
+        rc = super().run(tier)
+        if rc == 0 and getattr(self, "_missing", None):
+            raise vk.Broken("no history in which a %s message was attested without error (dead driver?)" % self._missing)
+        if rc == 0 and self._skipped:
+            raise vk.Broken("%d histories could not be run, their prepared world failed: %s" % (len(self._skipped), sorted(set(self._skipped.values()))[:3]))
+        return rc
 
     def nontrivial(self, evs):
         return any(e["act"] == "EndBlock" and e.get("routed") for e in evs)
@@ -41,7 +60,8 @@ class C07(Pipeline):
         # every action kind must have been accepted at least once somewhere
         share = {1: 3, 2: 1, 3: 1, 4: 1}
         st = {"accepted": {}, "rejected": {}, "error_proof": {}, "no_quorum_or_split": 0, "won_with_exactly_two_thirds": 0,
-              "one_short": 0, "corruptions_offered": {}, "prefix_lengths_accepted": {}}
+              "one_short": 0, "corruptions_offered": {}, "prefix_lengths_accepted": {},
+              "note_metrix_success_recorded_for_rejected_proof": 0}
         prev = None
         for e in events:
             if e["act"] == "Evidence" and e["res"] == "ok" and e["args"]["t"] == "tx":
@@ -49,6 +69,8 @@ class C07(Pipeline):
                 st["corruptions_offered"][c] = st["corruptions_offered"].get(c, 0) + 1
             if e["act"] == "EndBlock" and prev is not None:
                 qs = {q["id"]: q for q in prev["obs"]["queue"]}
+                if e["errc"] in ("notverified", "txfailed") and e["obs"]["succ"] > prev["obs"]["succ"]:
+                    st["note_metrix_success_recorded_for_rejected_proof"] += 1     # observation outside C07, see report
                 failing = e["routed"][-1]["id"] if e["errc"] and e["routed"] else None
                 rid = {r["id"] for r in e["routed"]}
                 for q in qs.values():
@@ -81,9 +103,7 @@ class C07(Pipeline):
             prev = e
         self._stats = st
         accepted = set(st["accepted"])
-        missing = {"slc", "valset", "usc", "handover", "uusc"} - accepted
-        if missing:
-            raise vk.Broken("no history in which a %s message was attested without error (dead driver?)" % sorted(missing))
+        self._missing = sorted({"slc", "valset", "usc", "handover", "uusc"} - accepted)
 
     def binding_selftest(self, events, tier):
         """1. pretend a rejected (corrupted / failed / replayed) winning transaction produced the success effect,
